@@ -58,6 +58,34 @@ class BuildLock:
         self.f.close()
 
 
+class RepoLock:
+    """Generated Lean files are a function of the checkout under test.  Runs against the SAME checkout may overlap
+    (shared lock); a run against a different checkout (SCRAPLI_REPO) waits until the others are done (exclusive to
+    switch).  Held for the whole check run."""
+
+    def __enter__(self):
+        path = LEAN / ".repo.lock"
+        me = str(REPO.resolve())
+        while True:
+            self.f = open(path, "a+")
+            fcntl.flock(self.f, fcntl.LOCK_SH)
+            self.f.seek(0)
+            if self.f.read().strip() == me:
+                return self
+            fcntl.flock(self.f, fcntl.LOCK_UN)
+            fcntl.flock(self.f, fcntl.LOCK_EX)
+            self.f.seek(0)
+            self.f.truncate()
+            self.f.write(me)
+            self.f.flush()
+            fcntl.flock(self.f, fcntl.LOCK_UN)
+            self.f.close()
+
+    def __exit__(self, *a):
+        fcntl.flock(self.f, fcntl.LOCK_UN)
+        self.f.close()
+
+
 def write_if_changed(path: Path, content: str) -> bool:
     path.parent.mkdir(parents=True, exist_ok=True)
     if path.exists() and path.read_text() == content:
